@@ -314,8 +314,24 @@ pub fn produce(r: &mut Rng, out: &mut String, b: &str, t: &[(u32, u32)], which: 
                 writeln!(out, "multi {} {} exact {} {}", op, kind, b, items).unwrap();
                 "multi-op"
             } else {
-                let form = *r.pick(&["oo", "or", "ro", "rr", "ao", "ar"]);
-                writeln!(out, "{} {} {} b10 b11", op, form, b).unwrap();
+                // one form produces the value, the five others must produce the very same value: the six forms run through
+                // different code (and normalise their result in different places), so none of them is left to chance
+                let forms = ["oo", "or", "ro", "rr", "ao", "ar"];
+                let first = r.below(6) as usize;
+                // (the assigning and the consuming forms use up their operands: every form gets clones)
+                writeln!(out, "clone b14 b10").unwrap();
+                writeln!(out, "clone b15 b11").unwrap();
+                writeln!(out, "{} {} {} b14 b15", op, forms[first], b).unwrap();
+                for (i, f) in forms.iter().enumerate() {
+                    if i != first {
+                        writeln!(out, "clone b14 b10").unwrap();
+                        writeln!(out, "clone b15 b11").unwrap();
+                        writeln!(out, "{} {} b13 b14 b15", op, f).unwrap();
+                        writeln!(out, "eq b13 {}", b).unwrap();
+                        writeln!(out, "expect true").unwrap();
+                        writeln!(out, "dump b13").unwrap();
+                    }
+                }
                 "binary-op"
             }
         }
@@ -404,7 +420,16 @@ pub const N_PRODUCERS: u64 = 12;
 
 pub fn gen_case(r: &mut Rng, out: &mut String) {
     let t = target(r);
-    let p1 = r.below(N_PRODUCERS);
+    let mut p1 = r.below(N_PRODUCERS);
+    // a target with a chunk population next to the array limit: half of the time one producer is set algebra (the operators
+    // shrink bitset operands back to it)
+    let mut per_chunk: std::collections::BTreeMap<u32, u64> = std::collections::BTreeMap::new();
+    for &(s, l) in &t {
+        *per_chunk.entry(s >> 16).or_insert(0) += l as u64;
+    }
+    if per_chunk.values().any(|&n| (4094..=4098).contains(&n)) && r.chance(1, 2) {
+        p1 = *r.pick(&[8u64, 8, 9]);
+    }
     let mut p2 = r.below(N_PRODUCERS);
     if p2 == p1 {
         p2 = (p2 + 1) % N_PRODUCERS;
